@@ -156,6 +156,19 @@ func prepareBuild(sp *spec) (modfile, overlay string) {
 }
 
 func build(sp *spec) string {
+	if sp.Wasm {
+		// the build obligation of C19: the package itself (no overlay, no tags) must compile
+		// for js/wasm from the current tree
+		cmd := exec.Command("go", "build", ".")
+		cmd.Dir = repoDir()
+		cmd.Env = append(env(), "GOOS=js", "GOARCH=wasm")
+		if out, err := cmd.CombinedOutput(); err != nil {
+			v := hc.Violation{Property: sp.ID, Signature: "wasm-build", Desc: "GOOS=js GOARCH=wasm go build of the package fails:\n" + string(out), Replay: map[string]string{"compiler_output": string(out)}}
+			path := writeReplay(sp.ID, v)
+			fmt.Printf("VIOLATION property=%s replay=%s\n  the package does not compile for js/wasm:\n%s\n", sp.ID, path, firstLines(string(out), 12))
+			os.Exit(1)
+		}
+	}
 	modfile, overlay := prepareBuild(sp)
 	bin := filepath.Join(root, ".cache", "bin", repoKey(), sp.ID)
 	os.MkdirAll(filepath.Dir(bin), 0o755)
